@@ -1350,6 +1350,14 @@ func (sc *serverConn) handleHeaderFrame(strm *Stream, fr *FrameHeader) error {
 			if errors.Is(err, ErrUnexpectedSize) && len(pb) > 0 && !fr.Flags().Has(FlagEndHeaders) {
 				err = nil
 				strm.previousHeaderBytes = append(strm.previousHeaderBytes, pb...)
+
+				// The limit is on decoded fields, and a field that never ends
+				// is never decoded: a literal with a huge declared length would
+				// keep this buffer growing for as long as the peer sends
+				// CONTINUATION frames. No field can be longer than the list.
+				if sc.maxHeaderList > 0 && len(strm.previousHeaderBytes) > sc.maxHeaderList {
+					return NewGoAwayError(EnhanceYourCalm, "header list exceeds the maximum size")
+				}
 			} else {
 				err = NewGoAwayError(CompressionError, err.Error())
 			}
